@@ -57,6 +57,17 @@ var typedUnitary bool
 // used again afterwards (other callbacks, a second Create)
 var handlerBuilderReuse bool
 
+// handWrittenHandler: the next monitor's handler is the application's own type
+// implementing the Handler interface (a decorator), not a builder-made value
+var handWrittenHandler bool
+
+type userHandlerU struct{ inner kcache.Handler }
+
+func (u *userHandlerU) OnInitialize(objs []metav1.Object) { u.inner.OnInitialize(objs) }
+func (u *userHandlerU) OnCreate(obj metav1.Object)        { u.inner.OnCreate(obj) }
+func (u *userHandlerU) OnUpdate(obj metav1.Object)        { u.inner.OnUpdate(obj) }
+func (u *userHandlerU) OnDelete(obj metav1.Object)        { u.inner.OnDelete(obj) }
+
 // typedBuilders is filled by the per-package glue files (generated from
 // typed_glue.go.tmpl by build_sim.sh, one per typed package).
 var typedBuilders = map[string]func(ctx context.Context, log logutil.Log, c client.Client) (*TNode, error){}
@@ -173,6 +184,9 @@ func untypedCtrl(c kcache.Controller, fc kcache.FilterController) *TNode {
 				b.OnInitialize(func(objs []metav1.Object) { rec(TCall{Kind: "second:init", Objs: specsOrNil(objs)}) }).
 					OnCreate(one("second:create")).OnUpdate(one("second:update")).OnDelete(nil).Create()
 			}
+			if handWrittenHandler {
+				return kcache.NewMonitor(c, &userHandlerU{inner: h})
+			}
 			return kcache.NewMonitor(c, h)
 		},
 	}
@@ -198,6 +212,7 @@ type DAct struct {
 	SlowMs  int               `json:"slow_ms,omitempty"`
 	Ms      int               `json:"ms,omitempty"`
 	Unitary bool              `json:"unitary,omitempty"` // monitor: the typed side uses the package's UnitaryHandler through ToUnitary
+	HandWritten bool           `json:"hand_written,omitempty"` // monitor: the handler is a user type implementing Handler
 	ReuseBuilder bool          `json:"reuse_builder,omitempty"` // monitor: the handler builder is used again after Create (the created handler is a finished value)
 	Stalled bool              `json:"stalled,omitempty"` // the subscriber does not read until the end (C10's typed position)
 }
@@ -277,7 +292,7 @@ func genC20(g GenCtx) interface{} {
 			// one event per write and per stage only: no filters (a refilter is a batch), no monitors
 			k = pick(rng, "sub", "sub", "clone")
 		}
-		sc.Acts = append(sc.Acts, DAct{Op: "mknode", Node: p, Kind: k, Filter: randFilter(rng), SlowMs: pickInt(rng, 0, 0, 3), Unitary: k == "monitor" && rng.Intn(3) == 0, ReuseBuilder: k == "monitor" && rng.Intn(3) == 0})
+		sc.Acts = append(sc.Acts, DAct{Op: "mknode", Node: p, Kind: k, Filter: randFilter(rng), SlowMs: pickInt(rng, 0, 0, 3), Unitary: k == "monitor" && rng.Intn(3) == 0, ReuseBuilder: k == "monitor" && rng.Intn(3) == 0, HandWritten: k == "monitor" && rng.Intn(3) == 0})
 		switch k {
 		case "clone", "clonef", "cloneff":
 			pubs = append(pubs, nodes)
@@ -639,13 +654,14 @@ func runC20(sci interface{}) {
 			case "monitor":
 				typedUnitary, n.unitary = a.Unitary, a.Unitary
 				handlerBuilderReuse = a.ReuseBuilder
+				handWrittenHandler = a.HandWritten
 				if a.ReuseBuilder {
 					detsim.Count("probe:handler-builder-used-again-after-create")
 				}
 				n.tmonitor, e1 = tp.Monitor(func(c TCall) { n.tmon = append(n.tmon, c) }, a.SlowMs)
 				typedUnitary = false
 				n.umonitor, e2 = up.Monitor(func(c TCall) { n.umon = append(n.umon, c) }, a.SlowMs)
-				handlerBuilderReuse = false
+				handlerBuilderReuse, handWrittenHandler = false, false
 				n.t, n.u = &TNode{}, &TNode{}
 			default:
 				dead()
